@@ -66,7 +66,7 @@ func (w *c06world) handler(rw http.ResponseWriter, q *http.Request, rec *rig.Ori
 	pending := st.pending // stays in force for every origin request of the current client exchange
 	cur, kind, res := st.cur, st.kind, st.res
 	w.mu.Unlock()
-	rec.Note = id
+	rec.SetNote(id)
 	if pending != 0 {
 		rw.Header().Set("Content-Type", "text/plain")
 		rw.Header().Set("X-Origin-Error", fmt.Sprint(pending))
